@@ -62,6 +62,15 @@ theorem derivative_rows_match :
     ∀ s ∈ derivSources, s.fromRow = s.half ∨ s.guard = "allEqual" := by
   decide
 
+/-- The numerically differentiated `P'` is `Jacobian(Re P) + i·Jacobian(Im P)` with BOTH numdifftools
+    Jacobians evaluated unconditionally (also where `P` happens to be real) in float64 (whatever
+    the dtype of the `parameters` array): `halfstep_propagator_derivative` has exactly the body the
+    translator knows — any other body is refused. -/
+theorem halfstep_derivative_as_modelled :
+    halfstepRealJacobianUnconditional = true ∧ halfstepImagJacobianUnconditional = true
+      ∧ halfstepDifferentiator = "numdifftools.Jacobian" := by
+  decide
+
 /-! ### (1) exact multilinearity: the adjoint identity, any number of environments -/
 
 /-- `adjoint_exact`, first half step.  For every number of steps `N`, every step `k < N`, every
